@@ -557,6 +557,66 @@ func c13PipelineStreams(quick bool) []c13Stream {
 	return out
 }
 
+// c13KeyStateStreams: one lock-type frame with every pair of timeout-flag bits (and, thorough, expiry-flag
+// bits), a LockId that is the holder's / older / newer, against every shape of key state a client can build
+// beforehand: free, held, waiters but no holder (wait-when-unlocked), held with waiters, semaphore partly
+// taken, holder being acknowledged. The branch taken inside LockDB.Lock / UnLock depends on exactly this
+// triple, so each pair of flags meets each state.
+func c13KeyStateStreams(quick bool) []c13Stream {
+	var out []c13Stream
+	idFrame := func(t uint8, flag uint8, id, ver byte, timeout, tflag, expried, eflag, count uint16, rcount uint8) []byte {
+		b := lockFrame(t, flag, 0, timeout, tflag, expried, eflag, count, rcount)
+		b[36], b[21] = id, ver
+		return b
+	}
+	states := []struct {
+		name  string
+		setup [][]byte
+	}{
+		{"free", nil},
+		{"held", [][]byte{idFrame(1, 0, 2, 5, 0, 0, 30, 0, 0, 0)}},
+		{"waiters-no-holder", [][]byte{idFrame(1, 0, 2, 5, 5, 0x0200, 30, 0, 0, 0)}},
+		{"held-and-waiter", [][]byte{idFrame(1, 0, 2, 5, 0, 0, 30, 0, 0, 0), idFrame(1, 0, 3, 5, 5, 0, 30, 0, 0, 0)}},
+		{"semaphore-partly-taken", [][]byte{idFrame(1, 0, 2, 5, 0, 0, 30, 0, 2, 0), idFrame(1, 0, 3, 5, 0, 0, 30, 0, 2, 0)}},
+		{"holder-awaiting-ack", [][]byte{idFrame(1, 0, 2, 5, 5, 0x1000, 30, 0, 0, 0)}},
+		{"held-reentrant", [][]byte{idFrame(1, 0, 2, 5, 0, 0, 30, 0, 0, 3), idFrame(1, 0, 2, 5, 0, 0, 30, 0, 0, 3)}},
+	}
+	var pairs []uint16
+	for i := 0; i < 16; i++ {
+		pairs = append(pairs, 1<<i)
+		for j := i + 1; j < 16; j++ {
+			pairs = append(pairs, 1<<i|1<<j)
+		}
+	}
+	pairs = append(pairs, 0)
+	ids := [][2]byte{{2, 5}, {2, 1}, {1, 1}, {1, 5}, {1, 9}}
+	for _, st := range states {
+		for _, t := range []uint8{1, 2} {
+			for _, id := range ids {
+				for _, tf := range pairs {
+					for _, tc := range [][2]uint16{{1, 0}, {1, 2}, {0, 0}, {0, 2}} {
+						if quick && tc[0] == 0 && tf&0x4200 == 0 {
+							continue
+						}
+						s := whole(fmt.Sprintf("bin/keystate/%s/t%d/id%d.%d/tflag%04x/timeout%d-count%d", st.name, t, id[0], id[1], tf, tc[0], tc[1]), idFrame(t, 0, id[0], id[1], tc[0], tf, 2, 0, tc[1], 0))
+						s.Setup = st.setup
+						out = append(out, s)
+					}
+				}
+				if quick {
+					continue
+				}
+				for _, ef := range pairs {
+					s := whole(fmt.Sprintf("bin/keystate/%s/t%d/id%d.%d/eflag%04x", st.name, t, id[0], id[1], ef), idFrame(t, 0, id[0], id[1], 1, 0, 2, ef, 0, 0))
+					s.Setup = st.setup
+					out = append(out, s)
+				}
+			}
+		}
+	}
+	return out
+}
+
 func c13Group(name string, quick bool) []c13Stream {
 	switch name {
 	case "pipeline":
@@ -565,13 +625,15 @@ func c13Group(name string, quick bool) []c13Stream {
 		return c13BinaryStreams(quick)
 	case "text":
 		return c13TextStreams(quick)
+	case "keystate":
+		return c13KeyStateStreams(quick)
 	}
 	return c13SplitStreams(quick)
 }
 
 func c13Cases(quick bool) []EnumCase {
 	var out []EnumCase
-	for _, g := range []string{"binary", "text", "split", "pipeline"} {
+	for _, g := range []string{"binary", "text", "split", "pipeline", "keystate"} {
 		n := len(c13Group(g, quick))
 		chunk := 60
 		for f := 0; f < n; f += chunk {
